@@ -481,6 +481,63 @@ def s_string_tokens():
             return f'string_literal {"accepts" if r else "rejects"} {text!r}'
 
 
+def s_comment_token():
+    """The comment token is `//` + everything up to the end of the line, or `/*` + everything up to the first `*/`
+    (C07: a comment never reaches into the next line, so it cannot hide a fault there; C14: what is captured as
+    the comment text is exactly that span)."""
+    import pyparsing as pp
+    import pydbml.definitions.common as C
+    why = _comment_shape(C.comment)
+    if why is None:
+        return None
+    # another way of writing the token is not a violation by itself: evaluate it on the boundary words
+    import itertools
+    for n in range(0, 4):
+        for w in itertools.product('/*\\\na ', repeat=n):
+            for op in ('//', '/*'):
+                text = op + ''.join(w)
+                if op == '//':
+                    want = text.find('\n')
+                    want = len(text) if want < 0 else want
+                else:
+                    k = text.find('*/', 2)
+                    want = None if k < 0 else k + 2
+                got = None
+                try:
+                    for _t, st, en in C.comment.scan_string(text, max_matches=1):
+                        got = en if st == 0 else None
+                except pp.ParseBaseException:
+                    got = None
+                if got != want:
+                    return f'{why}; and on {text!r} it matches up to {got} where the documented span ends at {want}'
+    return ('undecided', why + '; its spans agree with the documented ones on every word of length <= 3 (bounded: '
+            'see C07.B.comment-token)')
+
+
+def _comment_shape(comment):
+    import pyparsing as pp
+    alts = _flat(comment, pp.MatchFirst)
+    if not isinstance(comment, pp.MatchFirst) or len(alts) != 2:
+        return 'comment is not a choice of exactly two forms (line comment | block comment)'
+    line, block = (_flat(a, pp.And) for a in alts)
+
+    def lit(e):
+        e = e.expr if isinstance(e, pp.Suppress) else None
+        return e.match if type(e) is pp.Literal else None
+    if len(line) != 2 or lit(line[0]) != '//' or type(line[1]) is not pp.SkipTo or type(line[1].expr) is not pp.LineEnd:
+        return 'line comment is not Suppress("//") + SkipTo(LineEnd())'
+    if len(block) != 3 or lit(block[0]) != '/*' or type(block[1]) is not pp.SkipTo or lit(block[2]) != '*/' \
+            or lit(block[1].expr) != '*/':
+        return 'block comment is not Suppress("/*") + SkipTo("*/") + Suppress("*/")'
+    for e in (line[1], block[1]):
+        if getattr(e, 'ignoreExpr', None) is not None or getattr(e, 'failOn', None) is not None \
+                or getattr(e, 'includeMatch', False):
+            return 'the SkipTo of a comment form has an ignore / fail_on / include option'
+    for x in [comment] + alts + line + block:
+        if x.parseAction:
+            return f'a parse action is attached to the comment token ({x})'
+
+
 class _NoLang(Exception):
     pass
 
@@ -681,6 +738,7 @@ CHECKS: List[Tuple[str, Tuple[str, ...], Callable[[], Any], str]] = [
     ('S.no-memo', ('C10', 'C11', 'C18', 'C16'), s_no_memo, 'no cache decorator, weak or module-level container, or non-property descriptor: every rendering and lookup is recomputed'),
     ('S.dispatch-through-cls', ('C16',), s_dispatch_through_cls, 'renderer methods dispatch through cls; elements render through the owning database\'s renderer class'),
     ('S.string-tokens', ('C07', 'C13'), s_string_tokens, 'string literal = one of three quoted forms (only the triple-quoted one spans lines, backslash escapes); names are words or double-quoted'),
+    ('S.comment-token', ('C07', 'C14'), s_comment_token, 'comment = Suppress("//") + SkipTo(LineEnd()) | Suppress("/*") + SkipTo("*/") + Suppress("*/"), no options, no parse action: a comment ends with its line or at the first */'),
     ('S.property-column-grammar', ('C15',), s_property_column_grammar, 'the column grammars with and without properties differ by exactly one added settings alternative'),
     ('S.whitespace', ('C07', 'C01'), s_default_whitespace, 'newline is not default whitespace'),
     ('S.number-token', ('C08', 'C01'), s_number_token, 'every text the number token can match is converted by its action without error (token language, extracted from the live grammar as a regular expression, included in what int()/float() accept; z3 regex solver)'),
